@@ -2708,3 +2708,432 @@ mut("c11-fanout-stops-at-any-quit", ["C11", "C19"], [(MG, '''	for _, subscriber 
 
 	return true
 }''')], ["C11.W1", "C19.W2"])
+
+# ---- batch 13 ----
+mut("c01-list-capacity-below-a-message", ["C01"], [(BM, "	numMaxMemHeaders = 10000", "	numMaxMemHeaders = 2000")], ["C01.V9"])
+mut("c01-quiet-list-capacity-still-above-a-message", ["C01"], [(BM, "	numMaxMemHeaders = 10000", "	numMaxMemHeaders = 4032")], [])
+mut("c02-no-list-reset-after-bad-header", ["C02", "C01"], [(BM, '''				hmsg.peer.Disconnect()
+
+				// Earlier headers of this message are already
+				// on the header list but will never be written.
+				b.resetHeaderListToChainTip()
+				return''', '''				hmsg.peer.Disconnect()
+				return''')], ["C02.O2", "C01.O1"])
+mut("c03-peer-retired-before-match-test", ["C03"], [(BM, '''			m, isCheckpoint := resp.(*wire.MsgCFCheckpt)
+			if isCheckpoint {
+				if m.FilterType == fType &&
+					m.StopHash == *lastHash {
+
+					checkpoints[sp.Addr()] = m.FilterHeaders
+					close(peerQuit)
+				}
+			}''', '''			m, isCheckpoint := resp.(*wire.MsgCFCheckpt)
+			if isCheckpoint {
+				close(peerQuit)
+				if m.FilterType == fType &&
+					m.StopHash == *lastHash {
+
+					checkpoints[sp.Addr()] = m.FilterHeaders
+				}
+			}''')], ["C03.G7"])
+mut("c03-cfheaders-peer-retired-on-any-stop-hash", ["C03"], [(BM, '''				if m.StopHash == stopHash &&
+					m.FilterType == fType &&
+					len(m.FilterHashes) == numHeaders {
+''', '''				if m.FilterType == fType &&
+					len(m.FilterHashes) == numHeaders {
+''')], ["C03.G7"])
+mut("c04-offered-work-over-whole-message", ["C04", "C02"], [(BM, '''				totalWork.Add(totalWork,
+					blockchain.CalcWork(reorgHeader.Bits))
+''', ''), (BM, '''			log.Tracef("Sane reorg attempted. Total work from "+
+				"reorg chain: %v", totalWork)
+''', '''			for _, offered := range msg.Headers {
+				totalWork.Add(totalWork,
+					blockchain.CalcWork(offered.Bits))
+			}
+			log.Tracef("Sane reorg attempted. Total work from "+
+				"reorg chain: %v", totalWork)
+''')], ["C04.V3", "C02.V7"])
+mut("c04-quiet-offered-work-in-second-loop-from-fork", ["C04", "C02"], [(BM, '''				totalWork.Add(totalWork,
+					blockchain.CalcWork(reorgHeader.Bits))
+''', ''), (BM, '''			log.Tracef("Sane reorg attempted. Total work from "+
+				"reorg chain: %v", totalWork)
+''', '''			for _, offered := range msg.Headers[i:] {
+				totalWork.Add(totalWork,
+					blockchain.CalcWork(offered.Bits))
+			}
+			log.Tracef("Sane reorg attempted. Total work from "+
+				"reorg chain: %v", totalWork)
+''')], [])
+_ANC_OLD = '''	endHeight, err := h.heightFromHash(stopHash)
+	if err != nil {
+		return nil, 0, err
+	}
+	startHeight := endHeight - numHeaders
+
+	headers, err := h.readHeaderRange(startHeight, endHeight)'''
+mut("c07-ancestors-refuse-ranges-from-genesis", ["C07"], [(ST, _ANC_OLD, '''	endHeight, err := h.heightFromHash(stopHash)
+	if err != nil {
+		return nil, 0, err
+	}
+	if numHeaders+1 > endHeight {
+		return nil, 0, fmt.Errorf("unable to fetch %d ancestors of "+
+			"header at height %d", numHeaders, endHeight)
+	}
+	startHeight := endHeight - numHeaders
+
+	headers, err := h.readHeaderRange(startHeight, endHeight)''')], ["C07.G3"])
+mut("c07-ancestors-refuse-at-equal", ["C07"], [(ST, _ANC_OLD, '''	endHeight, err := h.heightFromHash(stopHash)
+	if err != nil {
+		return nil, 0, err
+	}
+	if numHeaders >= endHeight {
+		return nil, 0, fmt.Errorf("unable to fetch %d ancestors of "+
+			"header at height %d", numHeaders, endHeight)
+	}
+	startHeight := endHeight - numHeaders
+
+	headers, err := h.readHeaderRange(startHeight, endHeight)''')], ["C07.G3"])
+mut("c07-quiet-ancestors-refuse-below-genesis", ["C07"], [(ST, _ANC_OLD, '''	endHeight, err := h.heightFromHash(stopHash)
+	if err != nil {
+		return nil, 0, err
+	}
+	if endHeight < numHeaders {
+		return nil, 0, fmt.Errorf("unable to fetch %d ancestors of "+
+			"header at height %d", numHeaders, endHeight)
+	}
+	startHeight := endHeight - numHeaders
+
+	headers, err := h.readHeaderRange(startHeight, endHeight)''')], [])
+mut("c08-filter-rollback-tested-against-target", ["C08", "C03"], [(BM, "		if uint32(bs.Height) <= regHeight {\n			newFilterTip, err := b.cfg.RegFilterHeaders.RollbackLastBlock(newTip)", "		if regHeight > height {\n			newFilterTip, err := b.cfg.RegFilterHeaders.RollbackLastBlock(newTip)")], ["C08.O8", "C03.O2"])
+mut("c09-update-inputs-deduplicated-by-outpoint", ["C09"], [(RS, '''	ro.watchInputs = append(ro.watchInputs, update.inputs...)
+''', ''), (RS, '''	for _, input := range update.inputs {
+		ro.watchList = append(ro.watchList, input.PkScript)
+	}''', '''	for _, input := range update.inputs {
+		dup := false
+		for _, have := range ro.watchInputs {
+			if have.OutPoint == input.OutPoint {
+				dup = true
+			}
+		}
+		if dup {
+			continue
+		}
+		ro.watchInputs = append(ro.watchInputs, input)
+		ro.watchList = append(ro.watchList, input.PkScript)
+	}''')], ["C09.O5"])
+mut("c09-quiet-update-inputs-appended-one-by-one", ["C09"], [(RS, '''	ro.watchInputs = append(ro.watchInputs, update.inputs...)
+''', ''), (RS, '''	for _, input := range update.inputs {
+		ro.watchList = append(ro.watchList, input.PkScript)
+	}''', '''	for _, input := range update.inputs {
+		ro.watchInputs = append(ro.watchInputs, input)
+		ro.watchList = append(ro.watchList, input.PkScript)
+	}''')], [])
+mut("c11-backlog-ends-at-missing-header", ["C11", "C19"], [(BM, '''		header, err := b.cfg.BlockHeaders.FetchHeaderByHeight(i)
+		if err != nil {
+			return nil, 0, err
+		}
+
+		blocks = append(blocks, blockntfns.NewBlockConnected(*header, i))''', '''		header, err := b.cfg.BlockHeaders.FetchHeaderByHeight(i)
+		if err != nil {
+			bestHeight = i - 1
+			break
+		}
+
+		blocks = append(blocks, blockntfns.NewBlockConnected(*header, i))''')], ["C11.V2", "C19.V1"])
+mut("c19-backlog-bound-raised-to-header-tip", ["C19", "C11"], [(BM, '''	b.newFilterHeadersMtx.RLock()
+	bestHeight := b.filterHeaderTip
+	b.newFilterHeadersMtx.RUnlock()
+
+	// If a height of 0 is provided by the caller, then a backlog of''', '''	b.newHeadersMtx.RLock()
+	b.newFilterHeadersMtx.RLock()
+	bestHeight := b.filterHeaderTip
+	if bestHeight < b.headerTip {
+		bestHeight = b.headerTip
+	}
+	b.newFilterHeadersMtx.RUnlock()
+	b.newHeadersMtx.RUnlock()
+
+	// If a height of 0 is provided by the caller, then a backlog of''')], ["C19.V1", "C11.V2"])
+mut("c12-disconnect-result-forgets-worker", ["C12"], [(WM, '''					w.cfg.Ranking.ResetRanking(
+						result.peer.Addr(),
+					)
+''', '''					w.cfg.Ranking.ResetRanking(
+						result.peer.Addr(),
+					)
+					delete(workers, result.peer.Addr())
+''')], ["C12.G4"])
+mut("c14-fast-add-for-headers-that-cannot-fail", ["C14"], [(BHV, '''	if err := blockchain.CheckBlockHeaderContext(
+		currBlockHeader.BlockHeader, parentCtx, v.flags, chainCtx, true,
+	); err != nil {''', '''	flags := v.flags
+	if currBlockHeader.Bits == prevBlockHeader.Bits &&
+		currBlockHeader.Timestamp.After(prevBlockHeader.Timestamp) {
+
+		flags |= blockchain.BFFastAdd
+	}
+	if err := blockchain.CheckBlockHeaderContext(
+		currBlockHeader.BlockHeader, parentCtx, flags, chainCtx, true,
+	); err != nil {''')], ["C14.G1"])
+mut("c14-quiet-flags-through-a-local", ["C14"], [(BHV, '''	if err := blockchain.CheckBlockHeaderContext(
+		currBlockHeader.BlockHeader, parentCtx, v.flags, chainCtx, true,
+	); err != nil {''', '''	flags := v.flags
+	if err := blockchain.CheckBlockHeaderContext(
+		currBlockHeader.BlockHeader, parentCtx, flags, chainCtx, true,
+	); err != nil {''')], [])
+mut("c15-threshold-widened", ["C15"], [(Q, '''		numInvalid := float32(rejectCodes[pushtx.Invalid])
+		numPeersResponded := float32(len(replies))
+''', '''		numInvalid := float64(rejectCodes[pushtx.Invalid])
+		numPeersResponded := float64(len(replies))
+'''), (Q, "		if numInvalid/numPeersResponded >= qo.invalidTxThreshold {", "		if numInvalid/numPeersResponded >= float64(qo.invalidTxThreshold) {")], ["C15.T1"])
+mut("c16-range-is-the-list-walk", ["C16"], [(LRU, '''	// valueVisitor is a closure to help unwrap the value from the cache.
+	valueVisitor := func(key K, value *Element[entry[K, V]]) bool {
+		return visitor(key, value.Value.value)
+	}
+
+	c.cache.Range(valueVisitor)''', '''	c.RangeFIFO(visitor)''')], ["C16.W1"])
+mut("c18-close-once-by-plain-flag", ["C18"], [(Q, "	once    sync.Once\n}", "	closed  bool\n}"), (Q, '''	t.once.Do(func() {
+		close(t.subject)
+	})''', '''	if t.closed {
+		return
+	}
+
+	t.closed = true
+	close(t.subject)''')], ["C18.R8"])
+
+# ---- batch 14 ----
+mut("c13-ban-recorded-under-a-wider-network", ["C13", "C06"], [(N, '''	ipNet, err := banman.ParseIPNet(addr, nil)
+	if err != nil {
+		return fmt.Errorf("unable to parse IP network for peer %v: %v",
+			addr, err)
+	}
+	return s.banStore.BanIPNet(ipNet, reason, BanDuration)''', '''	ipNet, err := banman.ParseIPNet(addr, nil)
+	if err == nil && ipNet.IP.To4() == nil {
+		ipNet, err = banman.ParseIPNet(addr, net.CIDRMask(64, 128))
+	}
+	if err != nil {
+		return fmt.Errorf("unable to parse IP network for peer %v: %v",
+			addr, err)
+	}
+	return s.banStore.BanIPNet(ipNet, reason, BanDuration)''')], ["C13.T5", "C06.V3"])
+mut("c07-last-prefix-bucket-missing", ["C07"], [(IDX, "	for i := 0; i <= 0xffff; i++ {", "	for i := 0; i < 0xffff; i++ {")], ["C07.V6"])
+mut("c07-quiet-prefix-buckets-counted-to-65536", ["C07"], [(IDX, "	for i := 0; i <= 0xffff; i++ {", "	for i := 0; i < 0x10000; i++ {")], [])
+mut("c10-bad-index-ends-the-transaction-loop", ["C10"], [(BSR, '''				initialTxns[op] = nil
+				continue
+			}
+
+			h := block.BlockHash()''', '''				initialTxns[op] = nil
+				break
+			}
+
+			h := block.BlockHash()''')], ["C10.V6"])
+mut("c12-finished-behind-progressed", ["C12"], [("query/worker.go", '''				if !progress.Finished {
+					// If it did make progress we reset the
+					// timeout. This ensures that the
+					// queries with multiple responses
+					// expected won't timeout before all
+					// responses have been handled.
+					// TODO(halseth): separate progress
+					// timeout value.
+					if progress.Progressed {
+						timeout.Stop()
+						timeout = time.NewTimer(
+							job.timeout,
+						)
+					}
+					continue Loop
+				}''', '''				if !progress.Progressed {
+					continue Loop
+				}
+				if !progress.Finished {
+					timeout.Stop()
+					timeout = time.NewTimer(job.timeout)
+					continue Loop
+				}''')], ["C12.O7"])
+mut("c15-mempool-judged-on-the-raw-error", ["C15"], [(PB, '''			if err != nil {
+				// We apply the custom err mapping function if
+				// it was supplied which allows to map other
+				// backend errors to the neutrino BroadcastError.
+				if b.cfg.MapCustomBroadcastError != nil {
+					err = b.cfg.MapCustomBroadcastError(err)
+				}
+				if !IsBroadcastError(err, Mempool) {
+					log.Errorf("Broadcast attempt "+
+						"failed: %v", err)
+					req.errChan <- err
+					continue
+				}
+			}''', '''			if err != nil && !IsBroadcastError(err, Mempool) {
+				if b.cfg.MapCustomBroadcastError != nil {
+					err = b.cfg.MapCustomBroadcastError(err)
+				}
+
+				log.Errorf("Broadcast attempt failed: %v", err)
+				req.errChan <- err
+				continue
+			}''')], ["C15.G3"])
+mut("c18-banpeer-counts-its-goroutine", ["C18", "C17"], [(N, '''		go func() {
+			if sp := s.PeerByAddr(addr); sp != nil {
+				sp.Disconnect()
+			}
+		}()''', '''		s.wg.Add(1)
+		go func() {
+			defer s.wg.Done()
+
+			if sp := s.PeerByAddr(addr); sp != nil {
+				sp.Disconnect()
+			}
+		}()''')], ["C18.R9", "C17.O7"])
+mut("c17-shutdown-sweep-on-one-quit-arm-only", ["C17", "C12"], [(WM, '''	// When the work dispatcher exits, we'll loop through the remaining
+	// batches and send on their error channel.
+	defer func() {
+		for _, b := range currentBatches {
+			b.errChan <- ErrWorkManagerShuttingDown
+			stopTimers(b)
+		}
+	}()
+
+''', ''), (WM, '''			currentBatches[batchIndex] = bp
+			batchIndex++
+
+		case <-w.quit:
+			return''', '''			currentBatches[batchIndex] = bp
+			batchIndex++
+
+		case <-w.quit:
+			for _, b := range currentBatches {
+				b.errChan <- ErrWorkManagerShuttingDown
+				stopTimers(b)
+			}
+
+			return''')], ["C17.X2", "C12.X1"])
+mut("c02-block-store-rolled-back-first", ["C02", "C03"], [(BM, '''		bs, err = b.cfg.BlockHeaders.RollbackLastBlock()
+		if err != nil {
+			return err
+		}
+
+		// Notifications are asynchronous, so we include the previous''', '''		// Notifications are asynchronous, so we include the previous'''), (BM, '''		newTip := &header.PrevBlock
+
+		// Only roll back filter headers if they've caught up this far.''', '''		newTip := &header.PrevBlock
+
+		oldHeight := uint32(bs.Height)
+		bs, err = b.cfg.BlockHeaders.RollbackLastBlock()
+		if err != nil {
+			return err
+		}
+		_ = oldHeight
+
+		// Only roll back filter headers if they've caught up this far.''')], ["C02.O3", "C03.O2"])
+mut("c04-branch-not-kept-on-the-reorg-list", ["C04", "C02"], [(BM, '''				b.reorgList.PushBack(headerlist.Node{
+					Header: *reorgHeader,
+					Height: int32(backHeight+1) + int32(j),
+				})
+''', '')], ["C04.V4", "C02.V4"])
+
+# ---- batch 15 ----
+mut("c03-end-checkpoint-from-the-answer-length", ["C03"], [(BM, '''	nextCheckPointIndex := checkPointIndex + maxCFCheckptsPerQuery - 1
+	if nextCheckPointIndex >= uint32(len(c.checkpoints)) {
+		nextCheckPointIndex = uint32(len(c.checkpoints)) - 1
+	}''', '''	nextCheckPointIndex := checkPointIndex + uint32(len(r.FilterHashes))/wire.CFCheckptInterval - 1
+	if nextCheckPointIndex >= uint32(len(c.checkpoints)) {
+		nextCheckPointIndex = uint32(len(c.checkpoints)) - 1
+	}''')], ["C03.V6"])
+mut("c12-job-popped-before-the-handover", ["C12"], [(WM, '''			next := work.Peek().(*queryJob)
+''', ''), (WM, '''			for _, p := range freeWorkers {
+				r := workers[p]
+''', '''			var next *queryJob
+			if len(freeWorkers) > 0 {
+				next = heap.Pop(work).(*queryJob)
+			}
+
+			for _, p := range freeWorkers {
+				r := workers[p]
+'''), (WM, '''					heap.Pop(work)
+					r.activeJob = next''', '''					r.activeJob = next''')], ["C12.O8"])
+mut("c10-manager-parks-on-the-request-it-just-tried", ["C10"], [(US, '''		for s.pq.IsEmpty() {
+			s.cv.Wait()
+''', '''		for s.pq.IsEmpty() || s.pq.Peek() == zzLast {
+			s.cv.Wait()
+			zzLast = nil
+'''), (US, '''		req := s.pq.Peek()
+		s.cv.L.Unlock()
+''', '''		req := s.pq.Peek()
+		zzLast = req
+		s.cv.L.Unlock()
+'''), (US, '''	defer close(s.shutdown)
+
+	for {
+		s.cv.L.Lock()''', '''	defer close(s.shutdown)
+
+	var zzLast *GetUtxoRequest
+	for {
+		s.cv.L.Lock()''')], ["C10.G2"])
+mut("c05-cached-prefix-dropped-from-block-headers-only", ["C05"], [(Q, '''	headerIndex := make(map[chainhash.Hash]int, len(blockHeaders)-1)
+	for i := 1; i < len(blockHeaders); i++ {''', '''	for startHeight < int64(height) {
+		lowestHash := blockHeaders[1].BlockHash()
+		if _, err := s.getFilterFromCache(
+			&lowestHash, filterdb.RegularFilter,
+		); err != nil {
+			break
+		}
+		blockHeaders = blockHeaders[1:]
+		startHeight++
+	}
+	headerIndex := make(map[chainhash.Hash]int, len(blockHeaders)-1)
+	for i := 1; i < len(blockHeaders); i++ {''')], ["C05.V6"])
+mut("c09-spent-input-dropped-from-the-watch-set", ["C09"], [(RS, '''		for _, input := range ro.watchInputs {
+			switch {''', '''		for i, input := range ro.watchInputs {
+			switch {'''), (RS, '''			case in.PreviousOutPoint == input.OutPoint:
+				return true''', '''			case in.PreviousOutPoint == input.OutPoint:
+				ro.watchInputs = append(
+					ro.watchInputs[:i], ro.watchInputs[i+1:]...,
+				)
+				return true''')], ["C09.V6"])
+mut("c18-rank-reset-by-the-worker-goroutine", ["C18"], [(WM, '''				r.Run(w.jobResults, w.quit)
+			}()''', '''				r.Run(w.jobResults, w.quit)
+				w.cfg.Ranking.ResetRanking(peer.Addr())
+			}()''')], ["C18.R10"])
+mut("c04-done-peer-reported-only-after-verack", ["C04"], [(N, '''	select {
+	case s.donePeers <- sp:
+	case <-s.quit:
+		return
+	}
+
+	// Only tell block manager we are gone if we ever told it we existed.
+	if sp.VersionKnown() {
+		s.blockManager.DonePeer(sp)
+	}''', '''	if sp.VerAckReceived() {
+		select {
+		case s.donePeers <- sp:
+		case <-s.quit:
+			return
+		}
+
+		s.blockManager.DonePeer(sp)
+	}''')], ["C04.O9"])
+mut("c14-store-not-asked-for-some-heights", ["C14"], [(BHV, '''	ancestor, err := targetStore.FetchHeaderByHeight(ancestorHeight)
+	if err == nil {
+		return &lightHeaderCtx{
+			height:    int32(ancestorHeight),
+			bits:      ancestor.Bits,
+			timestamp: ancestor.Timestamp.Unix(),
+			validator: l.validator,
+		}
+	}
+''', '''	if distance > 1 {
+		ancestor, err := targetStore.FetchHeaderByHeight(ancestorHeight)
+		if err == nil {
+			return &lightHeaderCtx{
+				height:    int32(ancestorHeight),
+				bits:      ancestor.Bits,
+				timestamp: ancestor.Timestamp.Unix(),
+				validator: l.validator,
+			}
+		}
+	}
+''')], ["C14.O3"])
+mut("c07-block-store-reconciles-against-the-tip-height", ["C07", "C08"], [(ST, '''	latestFileHeader, err := bhs.readHeader(fileHeight)
+	if err != nil {
+		return nil, err
+	}''', '''	latestFileHeader, err := bhs.readHeader(tipHeight)
+	if err != nil {
+		return nil, err
+	}''')], ["C07.O7", "C08.O4"])
